@@ -498,7 +498,15 @@ class Project(MessageHandler):
                 # 2. No onstart dependencies (doesn't derive END from another task's START)
                 is_terminal = (task_id not in has_fs_successor) and (task_id not in has_onstart_dep)
 
-                if forward is False and not task_end and container_end and is_terminal:
+                # An event the user dated (a start of its own, no work) stays where it is: the
+                # deadline of the work package around it is not its end
+                dated_event = (
+                    bool(task.get("start", scIdx))
+                    and not task.inherited("start", scIdx)
+                    and not (task.get("effort", scIdx) or 0)
+                )
+
+                if forward is False and not task_end and container_end and is_terminal and not dated_event:
                     task[("end", scIdx)] = container_end
             else:
                 # Container - propagate to children
